@@ -150,6 +150,7 @@ class C03(Check):
         # capacity changes / unblocking / budget adjustments made BETWEEN two consecutive runs must wake parts up too
         specs += [S.with_splits(x) for x in (S.RES(K), S.BLOCK(K), S.BUDGET(K))]
         # sinks with stretched / per-part cycle times; devices created while running with a blocked device as upstream
+        specs += [S.LOOP(K), S.LOOP(K, delay=0)]
         specs += [S.SINKOFF(K), S.LATE(K, horizon=4, name='c03', ops=[['create', 3, 4], ['create', 10, 11], ['create', 12, 13, 14],
                                                                      ['block', 'M1', True]])]
         jobs = _line_jobs(specs, ['wakeup'], tier)
@@ -166,7 +167,7 @@ def buffer_scenarios(K, thorough):
             S.FANOUT_DELAY(K), S.BATCH(K, size=2, cap=3, sink_cycle=2), S.BATCH_DIRECT(K, cap=3, sink_cycle=1),
             S.TWOSRC(K), S.TWOSRC(K, eps=1e-9, delay=1, horizon=4), S.DELAY01_LONG(0), S.EMPTYBATCH(K),
             S.BUFBATCH(K, pattern=(3, 3, None), cap=5, size=None, sink_cycle=2), S.BUFGATE(K), S.EMPTYBATCH_SCRIPT(K),
-            S.BATCH(K, size=2, cap=6, sink_cycle=2)]
+            S.BATCH(K, size=2, cap=6, sink_cycle=2), S.LOOP(K), S.LOOP(K, delay=0)]
     return rows
 
 
